@@ -11,20 +11,20 @@ Inductive sx := SA (a : bytes) | SL (l : list sx).
 
 (* ---------- parsing ---------- *)
 
-(* stack machine: [cur] reversed atom under construction, [top] reversed items of the open list,
+(* stack machine: [cur] reversed atom under construction (reversal by the linear rev_append: atoms can be 100 kB), [top] reversed items of the open list,
    [stk] enclosing lists *)
 Definition flush (cur : bytes) (top : list sx) : list sx :=
-  match cur with [] => top | _ => SA (rev cur) :: top end.
+  match cur with [] => top | _ => SA (rev_append cur []) :: top end.
 
 Fixpoint sx_parse_aux (s : bytes) (cur : bytes) (top : list sx) (stk : list (list sx)) : option (list sx) :=
   match s with
-  | [] => match stk with [] => Some (rev (flush cur top)) | _ => None end
+  | [] => match stk with [] => Some (rev_append (flush cur top) []) | _ => None end
   | c :: s' =>
     if byte_eqb c x28 (* ( *) then sx_parse_aux s' [] [] (flush cur top :: stk)
     else if byte_eqb c x29 (* ) *) then
       match stk with
       | [] => None
-      | up :: stk' => sx_parse_aux s' [] (SL (rev (flush cur top)) :: up) stk'
+      | up :: stk' => sx_parse_aux s' [] (SL (rev_append (flush cur top) []) :: up) stk'
       end
     else if byte_eqb c x20 || byte_eqb c x0a || byte_eqb c x0d || byte_eqb c x09 then
       sx_parse_aux s' [] (flush cur top) stk
